@@ -277,9 +277,26 @@ def parse_out(text):
     return res, extra
 
 
-def run_both(header, histories, workdir, shards=NPROC, impl_only=False, model_only=False):
-    """Runs model driver and real harness on the histories; returns (model, impl, extras)."""
+SHIM = os.path.join(CACHE, 'shim.so')
+
+
+def build_shim():
+    src = os.path.join(ROOT, 'shim', 'shim.c')
+    if not os.path.exists(SHIM) or os.path.getmtime(SHIM) < os.path.getmtime(src):
+        p = sh(['gcc', '-shared', '-fPIC', '-O1', '-o', SHIM, src, '-ldl'])
+        if p.returncode != 0:
+            raise InfraError('shim build failed: ' + p.stderr)
+
+
+def run_both(header, histories, workdir, shards=NPROC, impl_only=False, model_only=False, lockcheck=False):
+    """Runs model driver and real harness on the histories; returns (model, impl, extras).
+    lockcheck: the implementation runs with the interposer preloaded, and every mutation of the persisted state made
+    by a library thread that does not hold the config lock comes back as an 'impl: UNLOCKED-WRITE hist=.. op=.. ..' extra."""
     os.makedirs(workdir, exist_ok=True)
+    ienv = None
+    if lockcheck:
+        build_shim()
+        ienv = dict(os.environ, LD_PRELOAD=SHIM)
     shards = max(1, min(shards, len(histories)))
     chunks = [histories[i::shards] for i in range(shards)]
     files = []
@@ -294,7 +311,7 @@ def run_both(header, histories, workdir, shards=NPROC, impl_only=False, model_on
     def run_impl(ip):
         i, p = ip
         return subprocess.run([UVH, 'replay', p, os.path.join(workdir, 'w%d' % i)], capture_output=True, text=True,
-                              timeout=3000)
+                              timeout=3000, env=ienv)
 
     model, impl, extras = {}, {}, []
     with ThreadPoolExecutor(max_workers=NPROC) as ex:
